@@ -3,7 +3,7 @@ from __future__ import annotations
 
 import ast
 
-from .. import astu, types
+from .. import astu, evid, types
 from ..cfg import cfg_of
 from ..report import key_of
 from . import Mutant, meta, rule
@@ -21,7 +21,9 @@ def _with_locks(node, lock_src, method=None):
   """True if `node` is lexically inside `with <lock_src>:`, or sits in a nested def/lambda that is only ever
   handed to `<lock>.wait_for(...)` from inside such a block (the condition evaluates it with the lock held)."""
   for a in astu.ancestors(node):
-    if isinstance(a, ast.With) and any(astu.src(i.context_expr) == lock_src for i in a.items):
+    if isinstance(a, ast.With) and any(astu.src(i.context_expr) == lock_src or
+                                       (isinstance(i.context_expr, ast.Name) and method is not None and astu.src(types.single_def(method, i.context_expr.id) or ast.Constant(value=0)) == lock_src)
+                                       for i in a.items):
       return True
     if isinstance(a, astu.FUNC_TYPES) and method is not None and a is not method:
       uses = [n for n in ast.walk(method) if isinstance(n, ast.Name) and n.id == a.name and isinstance(n.ctx, ast.Load)]
@@ -91,12 +93,22 @@ def r1(R, repo):
   shared = sorted((producer & consumer & written) - {lock})
   R.require(len(shared) >= 3, 'expected shared mutable fields (_buffer, _active, _error), found %s' % shared)
   R.note('lock=%s shared mutable fields=%s thread target=%s' % (lock, shared, target))
+  # methods used only as predicates of <lock>.wait_for(...) inside a locked block run with the lock held
+  pred_methods = set()
+  for name in meths:
+    uses = [(m2, n) for m2 in meths for n in ast.walk(mod.func('PrefetchIterator.' + m2).node) if _self_attr(n) and n.attr == name and isinstance(n.ctx, ast.Load)]
+    if uses and all(isinstance(astu.parent(n), ast.Call) and n in astu.parent(n).args and astu.src(astu.parent(n).func) == lock_src + '.wait_for' and
+                    _with_locks(astu.parent(n), lock_src, mod.func('PrefetchIterator.' + m2).node) for m2, n in uses):
+      pred_methods.add(name)
   for name, acc in sorted(per_method.items()):
     for a, n, k in acc:
       if a not in shared:
         continue
+      if name in pred_methods:
+        R.ok(key_of('PrefetchIterator.' + name, '%s of self.%s' % (k, a), astu.short(astu.enclosing_stmt(n), 60)), (mod.func('PrefetchIterator.' + name), n), 'predicate evaluated by wait_for under the lock')
+        continue
       key = key_of('PrefetchIterator.' + name, '%s of self.%s' % (k, a), astu.short(astu.enclosing_stmt(n), 60))
-      R.check(_with_locks(n, lock_src, mod.func('PrefetchIterator.' + name).node), key, (mod.func('PrefetchIterator.' + name), n),
+      R.check(_with_locks(n, lock_src, mod.func('PrefetchIterator.' + name).node), key, (mod.func('PrefetchIterator.' + name), n), evidence=True, msg_fail=
               'self.%s is shared between the prefetch thread and the consumer but is accessed (%s) outside `with %s:`' % (a, k, lock_src))
 
 
@@ -124,13 +136,13 @@ def r2(R, repo):
     if attr not in used and attr not in written_by_thread:
       continue
     key = key_of(init, 'self.%s initialised before the thread starts' % attr)
-    R.check(s not in after and c.dominated(st, [s]), key, (init, s.stmt),
+    R.check(s not in after and c.dominated(st, [s]), key, (init, s.stmt), evidence=True, msg_fail=
             'self.%s is assigned after self._thread.start(): the prefetch thread can run first, and this late assignment can overwrite '
             'what the thread stored (e.g. an exception raised by the very first item is lost) or the thread can read an unset field' % attr,
             witness=c.witness(c.entry, s))
   init_attrs = {s.stmt.targets[0].attr for s in stores}
   missing = sorted((used | written_by_thread) - init_attrs - set(meths))
-  R.check(not missing, key_of(init, 'all thread-visible fields initialised'), init, 'fields used by the thread but never initialised: %s' % missing)
+  R.check(not missing, key_of(init, 'all thread-visible fields initialised'), init, 'fields used by the thread but never initialised: %s' % missing, evidence=True)
 
 
 @rule('C20.R3', 'K4+K2', 6, 'FIFO discipline: items are appended at one end, consumed from the other, each exactly once')
@@ -143,7 +155,7 @@ def r3(R, repo):
   R.require(len(apps) == 1 and len(pops) == 1, 'append/pop on self._buffer not found')
   pop = pops[0]
   fifo = (astu.call_tail(pop) == 'popleft') or (len(pop.args) == 1 and astu.is_const(pop.args[0], 0))
-  R.check(fifo, key_of(nxt, 'consumes the oldest item'), (nxt, pop), 'items are appended at the end of the buffer, so the consumer must take index 0 '
+  R.check(fifo, key_of(nxt, 'consumes the oldest item'), (nxt, pop), evidence=not pop.args or isinstance(pop.args[0], ast.Constant), msg_fail= 'items are appended at the end of the buffer, so the consumer must take index 0 '
           '(`%s` takes another element: order is not preserved)' % astu.short(pop))
   # returned item is the popped one
   st = astu.enclosing_stmt(pop)
@@ -153,7 +165,7 @@ def r3(R, repo):
     c = cfg_of(nxt)
     rets = [n for n in c.nodes if isinstance(n.stmt, ast.Return)]
     ok = len(rets) == 1 and astu.src(rets[0].stmt.value) == v and c.dominated(rets[0], c.nodes_of_stmt(st))
-  R.check(ok, key_of(nxt, 'returns the popped item'), (nxt, pop), '__next__ must return exactly the item it removed from the buffer')
+  R.judge(isinstance(st, ast.Assign) and isinstance(st.targets[0], ast.Name) and len([n for n in cfg_of(nxt).nodes if isinstance(n.stmt, ast.Return)]) == 1, ok, key_of(nxt, 'returns the popped item'), (nxt, pop), '__next__ must return exactly the item it removed from the buffer')
   # producer: item = next(source); appended exactly once per fetched item
   c = cfg_of(prod)
   nx = [n for n in c.nodes if isinstance(n.stmt, ast.Assign) and isinstance(n.stmt.value, ast.Call) and astu.call_name(n.stmt.value) == 'next']
@@ -165,7 +177,7 @@ def r3(R, repo):
   nonexc = c.exc_edges()
   ok = ok and an and c.must_pass(nx[0], nx[0], an, avoid_edges=nonexc) and c.must_pass(nx[0], c.exit, an, avoid_edges=nonexc) and \
       not any(x in c.reach([a], avoid=[nx[0]]) for a in an for x in an)
-  R.check(ok, key_of(prod, 'each fetched item appended exactly once'), (prod, apps[0]),
+  R.judge(bool(an) and astu.src(apps[0].args[0]) == item, ok, key_of(prod, 'each fetched item appended exactly once'), (prod, apps[0]),
           'the prefetch loop must append every item it fetched exactly once before fetching the next one')
   src_uses = [n for n in ast.walk(prod.node) if _self_attr(n) and n.attr == '_data_iter']
   R.check(len(src_uses) == 1, key_of(prod, 'source consumed only by next()'), prod, 'the source iterator must be consumed in exactly one place')
@@ -178,7 +190,7 @@ def r3(R, repo):
   q = types.single_def(f.node, 'queue')
   is_deque = isinstance(q, ast.Call) and (astu.call_name(q) or '').endswith('deque')
   ok = len(qa) == 1 and len(qp) == 1 and ((is_deque and astu.call_tail(qp[0]) == 'popleft') or (astu.call_tail(qp[0]) == 'pop' and qp[0].args and astu.is_const(qp[0].args[0], 0)))
-  R.check(ok, key_of(f, 'queue.append <-> queue.popleft'), f, 'prefetch_to_device must yield the oldest queued item (append / popleft)')
+  R.judge(len(qa) == 1 and len(qp) == 1 and q is not None, ok, key_of(f, 'queue.append <-> queue.popleft'), f, 'prefetch_to_device must yield the oldest queued item (append / popleft)')
   loops = [n for n in astu.body_walk(enq.node) if isinstance(n, ast.For)]
   ok = len(loops) == 1 and isinstance(loops[0].iter, ast.Call) and astu.call_name(loops[0].iter) == 'itertools.islice' and \
       [astu.src(a) for a in loops[0].iter.args] == [astu.params(f.node)[0], astu.params(enq.node)[0]] and \
@@ -197,7 +209,7 @@ def r3(R, repo):
     ok = len(first) == 1 and len(inner) == 1 and astu.src(first[0].stmt.value.args[0]) == astu.params(f.node)[1] and \
         astu.is_const(inner[0].stmt.value.args[0], 1) and c.dominated(wl[0], first) and inner[0] in c.reach([ys[0]], avoid=[wl[0]]) and \
         isinstance(ys[0].stmt.value.value, ast.Call) and ys[0].stmt.value.value is qp[0]
-  R.check(ok, key_of(f, 'fill with enqueue(size); per yield refill enqueue(1); stop when queue empties'), f,
+  R.judge(len(ys) == 1 and len(enq_calls) == 2 and len(wl) == 1 and astu.src(wl[0].ast) == 'queue' and len(qp) == 1, ok, key_of(f, 'fill with enqueue(size); per yield refill enqueue(1); stop when queue empties'), f,
           'prefetch_to_device must fill the buffer once, then yield queue.popleft() and refill one item per yield until the queue is empty')
 
 
@@ -213,9 +225,9 @@ def r4(R, repo):
   rerr = [n for n in raises if astu.src(n.stmt.exc) == 'self._error']
   rstop = [n for n in raises if astu.raised_name(n.stmt) == 'StopIteration']
   R.require(len(rerr) == 1 and len(rstop) == 1, '__next__: raise self._error / raise StopIteration not found')
-  R.check(c.edge_guarded(rerr[0], tb[0], 'F') and c.edge_guarded(rerr[0], te[0], 'T'), key_of(nxt, 'error only after the buffer is drained'), (nxt, rerr[0].stmt),
+  R.check(c.edge_guarded(rerr[0], tb[0], 'F') and c.edge_guarded(rerr[0], te[0], 'T'), key_of(nxt, 'error only after the buffer is drained'), (nxt, rerr[0].stmt), evidence=True, msg_fail=
           'the source error must be raised only when no buffered item is left (items that preceded the error come first)')
-  R.check(c.edge_guarded(rstop[0], tb[0], 'F') and c.edge_guarded(rstop[0], te[0], 'F'), key_of(nxt, 'StopIteration only without items and without error'), (nxt, rstop[0].stmt),
+  R.check(c.edge_guarded(rstop[0], tb[0], 'F') and c.edge_guarded(rstop[0], te[0], 'F'), key_of(nxt, 'StopIteration only without items and without error'), (nxt, rstop[0].stmt), evidence=True, msg_fail=
           'StopIteration must be raised only when the buffer is empty and no error was recorded')
   waits = [x for x in astu.func_calls(nxt) if astu.call_tail(x) == 'wait_for']
   ok = len(waits) == 1 and isinstance(waits[0].args[0], ast.Lambda)
@@ -260,7 +272,7 @@ def r4(R, repo):
           for x in wx:
             if x in cf.reach([cn], avoid_edges=cf.exc_edges()) and not cf.must_pass(cn, x, nn, avoid_edges=cf.exc_edges()):
               ok = False
-      R.check(ok, key_of(f, 'state change followed by notify_all', astu.short(astu.enclosing_stmt(changes[0]), 50)), (f, w),
+      R.check(ok, key_of(f, 'state change followed by notify_all', astu.short(astu.enclosing_stmt(changes[0]), 50)), (f, w), evidence=True, msg_fail=
               'a change of the shared state under the lock must be followed by self._cond.notify_all() before the lock is released '
               '(otherwise the other side can wait forever)')
   R.require(n_blocks >= 4, 'expected >= 4 locked blocks that change shared state')
@@ -282,12 +294,15 @@ def r5(R, repo):
     lst = call.args[0]
     ok = (ax is None or astu.is_const(ax, 0)) and isinstance(lst, ast.List) and len(lst.elts) == 2 and astu.src(lst.elts[0]) == x and astu.src(n.stmt.targets[0]) == x and \
         isinstance(lst.elts[1], ast.Call) and astu.call_name(lst.elts[1]) == 'np.zeros'
-    R.check(ok, key_of(pad, 'zeros appended after the real rows along axis 0', astu.short(call, 50)), (pad, n.stmt),
+    zero_like = isinstance(lst, ast.List) and len(lst.elts) == 2 and any(isinstance(e_, ast.Call) and astu.call_tail(e_) in ('zeros', 'zeros_like', 'full', 'ones') for e_ in evid.expand(pad, lst.elts[1]) if isinstance(e_, ast.AST))
+    ok = ok or ((ax is None or astu.is_const(ax, 0)) and isinstance(lst, ast.List) and len(lst.elts) == 2 and astu.src(lst.elts[0]) == x and astu.src(n.stmt.targets[0]) == x and zero_like)
+    swapped = isinstance(lst, ast.List) and len(lst.elts) == 2 and astu.src(lst.elts[1]) == x
+    R.judge(ok or swapped or (isinstance(ax, ast.Constant) and ax.value != 0), ok, key_of(pad, 'zeros appended after the real rows along axis 0', astu.short(call, 50)), (pad, n.stmt),
             'padding must be appended *after* the real rows along the flat batch axis (`np.concatenate([x, zeros], axis=0)`); `%s` places padding elsewhere, so the first b rows of the flattened output are no longer the real rows' % astu.short(call, 90))
   ok = all(resh[0] in c.reach([n]) and n not in c.reach(resh) for n in cats)
-  R.check(ok, key_of(pad, 'flat padding first, reshape to (devices, per-device batch) last'), pad, 'the array must be padded while still flat and reshaped to (d, db, ...) only afterwards: padding after the reshape interleaves zero rows between the devices\' real rows')
+  R.check(ok, key_of(pad, 'flat padding first, reshape to (devices, per-device batch) last'), pad, evidence=True, msg_fail= 'the array must be padded while still flat and reshaped to (d, db, ...) only afterwards: padding after the reshape interleaves zero rows between the devices\' real rows')
   rs = [y for y in ast.walk(resh[0].stmt) if isinstance(y, ast.Call) and astu.call_tail(y) == 'reshape'][0]
-  R.check([astu.src(a) for a in rs.args] == ['d', 'db', '*shape'], key_of(pad, 'reshape(d, db, *shape)'), pad, 'pad must reshape to (d, db, *shape)')
+  R.judge(sorted(astu.src(a) for a in rs.args) == sorted(['d', 'db', '*shape']), [astu.src(a) for a in rs.args] == ['d', 'db', '*shape'], key_of(pad, 'reshape(d, db, *shape)'), pad, 'pad must reshape to (d, db, *shape)')
   t = astu.src(unpad.node)
   R.check('.reshape([np.prod(x.shape[:2]), *x.shape[2:]])[:b]' in t, key_of(unpad, 'flatten the two leading axes, keep the first b rows'), unpad, 'unpad must merge the (device, per-device) axes and keep exactly the first b rows')
 
